@@ -192,6 +192,42 @@ static std::string run_case(const toks_t& t)
         cellref.copy_and_verify([&](std::unique_ptr<T> v) { if (v) o = inspect(v.get(), sizeof(T)); return 0; });
         return o;
       });
+    } else if (variant == "strsc" || variant == "struc") {
+      // copy_and_verify_string on a pointer CELL of sandbox memory (a tainted_volatile<char*>): the cell (4 bytes at off) holds
+      // the representation of a string of the window; the adversary may redirect / null it at every interleave point
+      auto pp = g_sb->UNSAFE_accept_pointer(reinterpret_cast<char**>(g_win + off));
+      auto& cellref = *pp;
+      if (variant == "strsc") {
+        cellref.copy_and_verify_string([&](std::string v) {
+          out = inspect(v.data(), v.size()) + " alloc=" + std::to_string(v.size());
+          return 0;
+        });
+      } else {
+        g_track_new = true; g_last_array_new = 0;
+        cellref.copy_and_verify_string([&](std::unique_ptr<char[]> v) {
+          g_track_new = false;
+          if (!v) out = "NULLPTR";
+          else out = inspect(v.get(), g_last_array_new) + " alloc=" + std::to_string(g_last_array_new);
+          return 0;
+        });
+        g_track_new = false;
+      }
+    } else if (variant == "rangec") {
+      out = by_size(a, [&](auto tg) {
+        using T = typename decltype(tg)::type;
+        auto pp = g_sb->UNSAFE_accept_pointer(reinterpret_cast<T**>(g_win + off));
+        auto& cellref = *pp;
+        std::string o;
+        g_track_new = true; g_last_array_new = 0;
+        cellref.copy_and_verify_range([&](std::unique_ptr<T[]> v) {
+          g_track_new = false;
+          if (!v) o = "NULLPTR";
+          else o = inspect(v.get(), g_last_array_new) + " alloc=" + std::to_string(g_last_array_new);
+          return 0;
+        }, b);
+        g_track_new = false;
+        return o;
+      });
     } else if (variant == "uspc") {
       // unverified_safe_pointer_because(count) on a pointer cell of the window (C10)
       auto pp = g_sb->UNSAFE_accept_pointer(reinterpret_cast<char**>(g_win + off));
